@@ -1,6 +1,7 @@
 #!/bin/bash
 # seedtest.sh <seed-name> <check-id>...  : apply seeded patch to /repo, run the quick checks, undo. Prints verdict lines.
 name=$1; shift
+[ -n "$(git -C /repo status --porcelain --untracked-files=no)" ] && { echo "/repo is dirty: refusing (this script does git checkout -- .)"; exit 3; }
 cd /repo && git apply /verif/seeded/$name/patch.diff || { echo "patch does not apply: $name"; exit 2; }
 cd /verif
 for c in "$@"; do
